@@ -63,6 +63,7 @@ def gen(rng, tier):
     elif mode == "again":
         p = spec["profile"]
         spec["cfgB"] = G.gen_cfg(rng, p)
+        spec["pre_again"] = rng.choice([None, "initialize", "pert0", "sim0", "workflow_initialize"])
     else:
         p = spec["profile"]
         spec["model2"] = G.gen_model(rng, G.gen_profile(rng))
@@ -232,6 +233,18 @@ def run(spec):
                     "the same model with main_workplace_id being the workplace's ID object vs an equal copy of it differs at %s: %r vs %r" % diff, None)
     elif mode == "again":
         p = ref.project
+        pre = spec.get("pre_again")
+        if pre is not None:
+            # calls a user may make between two runs; none of them may change what the next simulate() gives
+            res.count("again_after_" + pre)
+            if pre == "initialize":
+                D.call(lambda: p.initialize())
+            elif pre == "workflow_initialize":
+                D.call(lambda: p.workflow.initialize())
+            elif pre == "pert0":
+                D.call(lambda: p.workflow.update_PERT_data(0))
+            elif pre == "sim0":
+                scen.simulate(p, dict(spec["cfg"], max_time=0), want_snap=False)
         # call simulate() again on the already simulated object
         rec, out = scen.simulate(p, spec["cfg"], want_snap=False)
         d2 = D.dump(p)
